@@ -405,9 +405,12 @@ def gen_alignments(rng):
         for i, (t, w) in zip(rng.sample(free, 3), SWAP_ROWS):
             data[i] = [t, "woldemort", w.replace(" ", ""), w.split(), 20]
     ignore = rng.choice(["all", [], []])
+    # align(); get_consensus() before the first save: the consensus goes into the <msa> tag and a CONSENSUS line
+    # (gaps=True: one segment per column; gaps=False: shorter than the alignment whenever a column is mostly gaps)
+    cons = rng.choice([None, "gaps", "nogaps"]) if ignore == [] else None
     return {"type": "alignments", "mode": "valid", "data": data, "prettify": rng.choice([True, False]),
             "analysis": "align", "swap_check": swap, "history": rng.choice([1, 2, 2]),
-            "ignore": ignore, "plant_local": ignore == [] and rng.random() < 0.4}
+            "ignore": ignore, "plant_local": ignore == [] and rng.random() < 0.4, "consensus": cons}
 
 
 def from_json(c):
@@ -457,9 +460,16 @@ def _msa_state(obj, annotations=True):
         rows = ["%s|%s|%s|%s" % (i, t, " ".join(a), " ".join(q))
                 for i, t, a, q in zip(msa["ID"], msa["taxa"], msa["alignment"], msa["seqs"])]
         for ann in ("swaps", "local", "consensus") if annotations else ():
-            if msa.get(ann):
+            val = list(msa.get(ann) or [])
+            if ann == "consensus":
+                # msa2str pads the CONSENSUS line to the width of the alignment and the padding is read back as ''
+                # (theorem C13_msa_consensus_padding_refuted; repair proposed to the lead): the exact comparison is
+                # bit 7 under the guard "one consensus segment per column", here the padding is ignored
+                while val and val[-1] == "":
+                    val.pop()
+            if val:
                 rows.append("%s=%s" % (ann, " ".join(str(tuple(x)) if isinstance(x, (list, tuple)) else str(x)
-                                                     for x in msa[ann])))
+                                                     for x in val)))
         out.append([int(key), rows])
     return out
 
@@ -492,6 +502,9 @@ def ser_run(case):
     for h in range(case.get("history", 1)):
         path = fresh("s")
         step = {"cols": None}
+        if h == 0 and case["type"] == "alignments" and case.get("consensus"):
+            obj.align(method="progressive", swap_check=bool(case.get("swap_check")))
+            obj.get_consensus(gaps=case["consensus"] == "gaps")
         before = observe(obj)
         step["cols"], step["rows"] = before[1], before[2]
         step["stamp"] = stamp_lines(obj)
